@@ -31,7 +31,10 @@ pub struct Case {
     pub model: Option<ModelUse>,
     pub files: Vec<TsDoc>,
     pub scalars: BTreeMap<String, [String; 4]>,
+    /// the intended configuration (read by the reference)
     pub cfg: Config,
+    /// the same configuration rendered as configuration-file text and read back by the subject's parse_config
+    pub subject_cfg: Config,
     pub tags: Vec<String>,
 }
 
@@ -202,7 +205,8 @@ pub fn gen_case(c: &mut Chooser) -> Case {
             Some(m)
         }
     };
-    Case { model, files, scalars, cfg, tags }
+    let subject_cfg = pipeline::via_config_text(&cfg);
+    Case { model, files, scalars, cfg, subject_cfg, tags }
 }
 
 fn add_field(files: &mut [TsDoc], ty: &str, name: &str, t: Ty) {
@@ -257,8 +261,8 @@ fn check_case(rep: &Reporter, case: &Case, texts: &[String], c: &Chooser, cnt: &
     let generated = catch(|| {
         let parsed = pipeline::parse_schema_files(texts).map_err(|f| format!("{:?}", f.diags))?;
         let doc = pipeline::resolve_and_check_schema(parsed).map_err(|f| format!("rejected: {:?}", f.diags.iter().map(|d| d.kind.clone()).collect::<Vec<_>>()))?;
-        let s = pipeline::schema_dts(&doc, &case.cfg).map_err(|e| format!("schema_dts: {e}"))?;
-        let r = pipeline::resolvers_dts_with(&doc, &case.cfg, "./schema.js", case.model.is_some()).map_err(|e| format!("resolvers_dts: {e}"))?;
+        let s = pipeline::schema_dts(&doc, &case.subject_cfg).map_err(|e| format!("schema_dts: {e}"))?;
+        let r = pipeline::resolvers_dts_with(&doc, &case.subject_cfg, "./schema.js", case.model.is_some()).map_err(|e| format!("resolvers_dts: {e}"))?;
         Ok::<_, String>((s.buffer, r.buffer))
     });
     let (schema_text, resolvers_text) = match generated {
